@@ -16,11 +16,14 @@ import sys
 
 VERIF = os.path.dirname(os.path.dirname(os.path.abspath(__file__)))
 
+# revert-fixN reverts the N-th "fix:" commit of /repo (in commit order)
 EXTRA = {
-    "revert-fix1": ["C06"], "revert-fix2": ["C02"], "revert-fix3": ["C11"], "revert-fix4": ["C13", "C05"], "revert-fix5": ["C14"],
-    "revert-fix6": ["C10"], "revert-fix7": ["C14"], "revert-fix8": ["C15"], "revert-fix9": ["C11"], "revert-fix10": ["C06"],
+    "revert-fix1": ["C06"], "revert-fix2": ["C02"], "revert-fix3": ["C11"], "revert-fix4": ["C10"], "revert-fix5": ["C13", "C05"],
+    "revert-fix6": ["C14"], "revert-fix7": ["C15"], "revert-fix8": ["C11"], "revert-fix9": ["C14"], "revert-fix10": ["C06"],
     "c02-m3": ["C02", "C07"], "c05-m1": ["C05", "C13"], "c03-inc-before-test": ["C03", "C05"],
 }
+# behaviour-preserving rewrites: every listed check must stay silent
+BENIGN = {"c04-benign-match": ["C04"]}
 
 
 def registered():
@@ -41,6 +44,8 @@ def collect(filt):
 
 
 def expected(name):
+    if name in BENIGN:
+        return BENIGN[name]
     if name in EXTRA:
         return EXTRA[name]
     m = re.match(r"c(\d\d)-", name)
@@ -68,8 +73,13 @@ def run_one(args):
 
 
 def main():
-    a = [x for x in sys.argv[1:] if not x.startswith("--")]
-    jobs = int(sys.argv[sys.argv.index("--jobs") + 1]) if "--jobs" in sys.argv else 6
+    argv = sys.argv[1:]
+    jobs = 6
+    if "--jobs" in argv:
+        i = argv.index("--jobs")
+        jobs = int(argv[i + 1])
+        del argv[i:i + 2]
+    a = [x for x in argv if not x.startswith("--")]
     reg = registered()
     work = []
     for n, p in collect(a[0] if a else None):
@@ -86,6 +96,10 @@ def main():
                 print("%-34s patch does not apply to the current tree" % name)
                 continue
             caught = [c for c, v in res["checks"].items() if v["exit"] != 0]
+            if name in BENIGN:
+                print("%-34s benign rewrite: %s" % (name, "FALSE ALARM from " + ",".join(caught) if caught else "silent (as required)"))
+                res["benign"] = True
+                continue
             print("%-34s %s %s" % (name, "caught by " + ",".join(caught) if caught else "MISSED", {c: v["rules"][:2] for c, v in res["checks"].items() if v["exit"]}))
     out = os.path.join(VERIF, "selftest-results.json")
     old = {}
@@ -93,7 +107,7 @@ def main():
         old = json.load(open(out))
     old.update(results)
     json.dump(old, open(out, "w"), indent=1, sort_keys=True)
-    missed = [n for n, r in results.items() if r.get("applies") and not any(v["exit"] for v in r["checks"].values())]
+    missed = [n for n, r in results.items() if r.get("applies") and (any(v["exit"] for v in r["checks"].values()) if r.get("benign") else not any(v["exit"] for v in r["checks"].values()))]
     print("\n%d changes run, %d missed: %s" % (len(results), len(missed), missed))
     return 1 if missed else 0
 
